@@ -1,8 +1,22 @@
 (* StrLemmas.v — lemmas about the Python str primitives of Str.v, plus the proof-side notion of
    "components of a path" ([comps]) that the path laws are stated through. *)
-From Coq Require Import NArith List Bool Lia Arith.
+From Coq Require Import NArith List Bool Arith.
 From CS Require Import Str.
 Import ListNotations.
+
+(* ------------------------------------------------------------------ small arithmetic
+   (proved by hand rather than by lia: the micromega checker in the dependency closure makes every
+   Print Assumptions of the property file several seconds slower) *)
+Lemma nat_add_S_neq n m : n = n + S m -> False.
+Proof. induction n as [|n IH]; simpl; [discriminate|]. intros H. injection H as H. exact (IH H). Qed.
+
+Lemma nat_add_S_le n m : n + S m <= n -> False.
+Proof.
+  induction n as [|n IH]; simpl; intros H; [inversion H|]. apply IH. apply le_S_n. exact H.
+Qed.
+
+Lemma nat_sub_0_lt n m : m < n -> n - m = 0 -> False.
+Proof. intros Hl H. apply Nat.sub_0_le in H. exact (Nat.lt_irrefl _ (Nat.lt_le_trans _ _ _ Hl H)). Qed.
 
 (* ------------------------------------------------------------------ str_eqb *)
 Lemma str_eqb_eq a b : str_eqb a b = true <-> a = b.
@@ -59,7 +73,7 @@ Proof.
   - simpl. destruct (N.eqb x c); reflexivity.
   - rewrite rev_app_distr. change (rev [x]) with [x]. change ([x] ++ rev (y :: l)) with (x :: rev (y :: l)).
     remember (rev (y :: l)) as w eqn:E2. destruct w as [|z l']; [|reflexivity].
-    exfalso. apply (f_equal (@length N)) in E2. rewrite rev_length in E2. simpl in E2. lia.
+    exfalso. apply (f_equal (@length N)) in E2. rewrite rev_length in E2. simpl in E2. discriminate E2.
 Qed.
 
 Lemma rstrip_nil c : rstrip c [] = [].
@@ -106,6 +120,11 @@ Proof.
     + exists n. simpl. f_equal. exact IH.
 Qed.
 
+Lemma rstrip_length_le c s : length (rstrip c s) <= length s.
+Proof.
+  destruct (rstrip_decomp c s) as [n H]. rewrite H at 2. rewrite app_length. apply Nat.le_add_r.
+Qed.
+
 Lemma rstrip_repeat c n : rstrip c (repeat c n) = [].
 Proof.
   induction n as [|n IH]; [reflexivity|]. simpl. rewrite rstrip_cons, IH, N.eqb_refl. reflexivity.
@@ -139,15 +158,17 @@ Proof.
   destruct (N.eqb_spec x c); [contradiction|reflexivity].
 Qed.
 
+Lemma lstrip_length_le c s : length (lstrip c s) <= length s.
+Proof.
+  induction s as [|y s IH]; simpl; [apply le_n|]. destruct (N.eqb y c); [apply le_S; exact IH|apply le_n].
+Qed.
+
 Lemma lstrip_rstrip_fix c s : lstrip c s = s -> lstrip c (rstrip c s) = rstrip c s.
 Proof.
   destruct s as [|x s]; [reflexivity|]. simpl.
   destruct (N.eqb_spec x c) as [->|Hne].
-  - intros H. exfalso. pose proof (lstrip_incl c s) as Hi.
-    apply (f_equal (@length N)) in H. simpl in H.
-    assert (length (lstrip c s) <= length s).
-    { clear. induction s as [|y s IH]; simpl; [lia|]. destruct (N.eqb y c); simpl; lia. }
-    lia.
+  - intros H. exfalso. pose proof (lstrip_length_le c s) as Hle.
+    rewrite H in Hle. simpl in Hle. exact (Nat.nle_succ_diag_l _ Hle).
   - intros _. rewrite rstrip_head by exact Hne. simpl.
     destruct (N.eqb_spec x c); [contradiction|reflexivity].
 Qed.
@@ -238,8 +259,8 @@ Lemma rfind_from_last c a b i acc :
   ~ In c b -> rfind_from c (a ++ c :: b) i acc = Some (i + length a).
 Proof.
   intros Hb. revert i acc. induction a as [|x a IH]; intros i acc; simpl.
-  - rewrite N.eqb_refl. rewrite rfind_from_no by exact Hb. f_equal. lia.
-  - rewrite IH. f_equal. lia.
+  - rewrite N.eqb_refl. rewrite rfind_from_no by exact Hb. rewrite Nat.add_0_r. reflexivity.
+  - rewrite IH. simpl. rewrite Nat.add_succ_r. reflexivity.
 Qed.
 
 Lemma rfind_none c s : ~ In c s -> rfind c s = None.
